@@ -17,8 +17,12 @@ suite `build`: `to_marrow(fields, rows)`.
           success the same decoded content column by column (and physically equal arrays are tagged), on
           error the same annotations;
   spec  : C01 decode(impl arrays) = interp(rows)      (SaModel/Spec/{Decode,Interp})
-          C03 WF field array, one length, one array per field   (SaModel/Spec/WF)
-          C05 success ⇒ every row was representable
+          C03 WF field array, one length, one array per field   (SaModel/Spec/WF) — for EVERY accepted input, rows
+              with malformed key/value call streams (`containsMalformed`) included: since repo fix bcc3416 a Map builder
+              refuses the streams that do not alternate and `C03_wf` carries no hypothesis about them, so a malformed
+              stream into a schema is never accepted with arrays that are not well formed
+          C05 success ⇒ every row was representable; a malformed call stream accepted with arrays that are not well
+              formed fails it (and C16: a failure that was not reported as an error)
           C16 no panic
           C18 an error is annotated with the field the model blames
 -/
@@ -148,18 +152,23 @@ def handle (j : Json) : Except String Verdict := do
   let tags := (fields.flatMap schemaTags).eraseDups ++ (rows.map (fun r => "row:" ++ r.kind)).eraseDups ++
     [s!"impl:{cls}", s!"rows:{if rows.length == 0 then "0" else if rows.length < 8 then "<8" else "≥8"}"]
   let tags := if rows.isEmpty then "trivial" :: tags else tags
+  let tags := if anyMalformed then "malformed-stream" :: tags else tags
   let c16 := if cls == "panic" || cls == "hang" then "fail" else "pass"
   -- outcome class first
   if model.cls != cls then
     let c05 := if cls == "ok" && firstBad.isSome && !anyMalformed then "fail" else "na"
     -- the implementation returned arrays where the model did not: they must still be well formed (C03 speaks
     -- about every array a successful serialization returns, whatever the model says about the input)
-    let c03 ← (if cls == "ok" && !anyMalformed then do
+    let c03 ← (if cls == "ok" then do
         let iarrs ← (← getArr impl "ok").toList.mapM arrOfJson
         let wfAll := iarrs.length == fields.length &&
           (fields.zip iarrs).all (fun (f, a) => WF f a && (decodeAll a).length == rows.length)
         pure (if wfAll then "na" else "fail")
       else pure "na" : Except String String)
+    -- a malformed call stream that is ACCEPTED with arrays that are not well formed is a failure that was not reported
+    -- as an error (C16) and an accepted unrepresentable input (C05): finding C16-map-key-value-alternation
+    let c16 := if anyMalformed && c03 == "fail" then "fail" else c16
+    let c05 := if anyMalformed && c03 == "fail" then "fail" else c05
     return { agree := false, spec := [("C16", c16), ("C05", c05), ("C01", "na"), ("C03", c03), ("C18", "na")], tags := tags,
              sig := if c03 == "fail" then s!"build/C03/accepted-by-impl-only/model={model.cls}" else s!"build/class/model={model.cls}/impl={cls}",
              why := s!"outcome class: model {model.cls} ({repr model.ann}), implementation {cls}: {(impl.getObjVal? cls).toOption.getD Json.null}" }
@@ -219,7 +228,11 @@ def handle (j : Json) : Except String Verdict := do
     let decOk := match runRows ext fields rows with
       | .ok root => (decRoot root).map (fun c => c.map (fun v => (Except.ok v : R LVal))) == mdecoded
       | .error _ => false
-    let c03 := if anyMalformed then "na" else if wfAll then "pass" else "fail"
+    -- no exemption for malformed call streams: whatever is accepted must be well formed (`C03_wf` has no `rawOK`)
+    let c03 := if wfAll then "pass" else "fail"
+    -- … and a malformed stream accepted with such arrays is also a C16 / C05 failure (see above)
+    let c16 := if anyMalformed && !wfAll && !fields.any hasFsb0 then "fail" else c16
+    let c05 := if anyMalformed && !wfAll && !fields.any hasFsb0 then "fail" else c05
     let badCol := firstNotWf.getD 0
     let cul := match fields[badCol]?, iarrs[badCol]? with
       | some f, some a => if firstNotWf.isSome then culpritSig f a else "-"
@@ -229,8 +242,8 @@ def handle (j : Json) : Except String Verdict := do
       else if c01 == "fail" then s!"build/C01/{cul}"
       else if c05 == "fail" then s!"build/C05/accepted-unrepresentable"
       else if !same then "build/decoded-differs"
-      else if !decOk && !anyMalformed && !fields.any hasFsb0 then "build/dec-vs-decode" else ""
-    return { agree := same && (decOk || anyMalformed || fields.any hasFsb0), spec := [("C16", c16), ("C05", c05), ("C01", c01), ("C03", c03), ("C18", "na")],
+      else if !decOk && !fields.any hasFsb0 then "build/dec-vs-decode" else ""
+    return { agree := same && (decOk || fields.any hasFsb0), spec := [("C16", c16), ("C05", c05), ("C01", c01), ("C03", c03), ("C18", "na")],
              tags := (if phys then "phys-eq" else "phys-diff") :: (if decOk then "dec=decode" else "dec≠decode") :: tags, sig := sig,
              why := if sig == "" then "" else s!"{sig}: first row not representable = {repr firstBad}; column not wf = {repr firstNotWf}" }
 
